@@ -1261,3 +1261,17 @@ RECIPES += [
      "srs: positional initargs hand the signal to the workers as the steady-state values"),
     ("C03", "neutral", [], S, "            args = (coeffunc, Q, 1 / sr, methfunc, S)\n", "            args = (coeffunc, Q, sr**-1, methfunc, S)\n", "srs: the step as sr**-1"),
 ]
+
+# ---- pass 5, round-4 seed I: a limiting-case arm selected by a threshold on the frequency instead of wn == 0
+_RD_ZERO = "    if wn == 0:\n        # See notes above for the derivation of these coefficients:\n        b = np.array([-1.0, -4.0, -1.0]) * dT**2 / 6\n"
+_RA_NZ = "    if wn != 0.0:\n        b *= (E * sin(B)) / B\n"
+RECIPES += [
+    ("C03", "break", ["C03-R1"], S, _RD_ZERO, _RD_ZERO.replace("if wn == 0:", "if B < 5e-3:"), "reldisp: limit numerator for B < 5e-3 (round-4 seed I)"),
+    ("C03", "break", ["C03-R1"], S, _RD_ZERO, _RD_ZERO.replace("if wn == 0:", "if wn * dT < 5e-3:"), "reldisp: limit numerator for wn*dT < 5e-3 (sr/fn > 1257, inside the domain)"),
+    ("C03", "break", ["C03-R1"], S, _RD_ZERO, _RD_ZERO.replace("if wn == 0:", "if wn < 1e-6:"), "reldisp: limit numerator below an absolute frequency (any step)"),
+    ("C03", "neutral", [], S, _RD_ZERO, _RD_ZERO.replace("if wn == 0:", "if wn * dT < 1e-9:"), "reldisp: threshold far outside the documented domain (sr/fn <= 2000)"),
+    ("C03", "neutral", [], S, _RD_ZERO, _RD_ZERO.replace("if wn == 0:", "if wn <= 0:"), "reldisp: wn <= 0 selects the zero-frequency arm"),
+    ("C03", "neutral", [], S, _RD_ZERO, _RD_ZERO.replace("if wn == 0:", "if not wn > 0:"), "reldisp: not wn > 0"),
+    ("C03", "break", ["C03-R1"], S, _RA_NZ, _RA_NZ.replace("if wn != 0.0:", "if B > 1e-4:"), "relacce: general numerator only above a threshold on B"),
+    ("C03", "neutral", [], S, _RA_NZ, _RA_NZ.replace("if wn != 0.0:", "if B > 0:"), "relacce: general numerator for B > 0"),
+]
